@@ -12,6 +12,7 @@ import framework as fw
 
 LEVEL = "proof"
 USE_TWINS = True
+EXTRACTORS = ["ice_consts"]
 TECHNIQUE = ("Lean 4 theorems over the real-number reading of a twin model + Float-twin differential run against "
              "paths from the real tracers + energy/Gram/monotonicity search on the implementation")
 RULE = ("paths = every solution of Basic/Specialized tracers in Antarctic, Greenland and Arasim ice, of the uniform "
@@ -33,12 +34,12 @@ LEVEL_TEXT = ("theorems C03_* proved over R for every path integral, every pair 
               "every signal and polarisation vector; the same model text run on Float agrees with the path classes of "
               "all four tracers on every sampled input")
 LEVEL_NOTE = ("floating-point rounding not modelled; the sampled depths of a path and the ice's attenuation lengths at "
-              "those depths are inputs of the attenuation model (AntarcticIce.attenuation_length itself is modelled and "
-              "tied separately, constants hard-coded in the twin: the `alen` correspondence op notices a changed "
-              "constant); time of flight, emitted/received directions are inputs of propagate (C01/C18); brentq "
+              "those depths are inputs of the attenuation model (the attenuation_length functions of AntarcticIce/"
+              "UniformIce, GreenlandIce and ArasimIce are the GENERATED twin IceFormulas/IceAtten of the ice_consts "
+              "translator, so an edited coefficient re-opens C03_L_*_mono; the `alen` op ties them as well); time of flight, emitted/received directions are inputs of propagate (C01/C18); brentq "
               "launch angles are not modelled. No `_partial` theorem; the hypothesis 'L_att(z,.) does not grow with f' of "
-              "the monotonicity theorems is proved for AntarcticIce (C03_L_antarctic_mono) and only swept by the search "
-              "for GreenlandIce/ArasimIce (L_greenland_mono, L_arasim_const of DESIGN.md are not proved). "
+              "the monotonicity theorems is proved for all three shipped ices on their valid ranges "
+              "(C03_L_antarctic_mono, C03_L_greenland_mono, C03_L_arasim_const/_mono, C03_atten_lengths_shipped_ices). "
               "Known finding K2: layered transmission coefficients exceed 1 (stated without a bound).")
 ASSUMPTIONS = ["emitted and received directions are unit vectors sharing the azimuth phi (C01/C18)",
                "np.interp is piecewise linear with constant continuation; np.trapz is the trapezoid sum"]
@@ -392,12 +393,15 @@ def correspondence(run):
         reqs.append(req); expect.append(ex); tols.append(tol); descs.append(desc)
         return len(reqs) - 1
 
-    # attenuation length of the Antarctic ice model (constants hard-coded in the twin)
-    aice = im.AntarcticIce()
-    for z in [0.0, -10.0, -150.0, -1000.0, -2850.0, -rng.uniform(0, 2850)]:
-        fs = [f for f in FREQS if f > 0] + [10 ** rng.uniform(6, 9.7) for _ in range(4)]
-        ex = [float(aice.attenuation_length(z, f)) for f in fs]
-        add("alen %s %d %s" % (fw.fl([z]), len(fs), fw.fl(fs)), ex, 0.0, {"op": "alen", "z": z})
+    # attenuation lengths of the shipped ice models (formulas and constants of the twin are regenerated from the
+    # source by the ice_consts translator; this ties the branch structure and the translation)
+    for tag, aice in (("a", im.AntarcticIce()), ("g", im.GreenlandIce()), ("r", im.ArasimIce()),
+                      ("a", im.UniformIce(1.5))):
+        for z in [0.0, -10.0, -150.0, -1000.0, -2850.0, -rng.uniform(0, 2850)]:
+            fs = [f for f in FREQS if f > 0] + [10 ** rng.uniform(6, 9.7) for _ in range(4)]
+            ex = [float(aice.attenuation_length(z, f)) for f in fs]
+            add("alen %s %s %d %s" % (tag, fw.fl([z]), len(fs), fw.fl(fs)), ex, 0.0,
+                {"op": "alen", "ice": type(aice).__name__, "z": z})
 
     prop_jobs = []
     for case, idx, path in trip:
